@@ -128,7 +128,14 @@ pub fn generate(g: &mut SplitMix, o: &GenOpts) -> GWork {
                             GEdit::PutRc(u.ids[i].clone(), gen_recipe_h(g, &u, i, o.helpers))
                         }
                         9 if !o.single_entry_rounds => GEdit::Silent(id, ext, format!("silent{ver}")),
-                        10 if !o.single_entry_rounds => GEdit::Noise(format!("nobody{ver}"), "a".into()),
+                        // a notification for something nobody has read (yet): an unknown name, or a real file that may be loaded later
+                        10 if !o.single_entry_rounds => {
+                            if g.chance(1, 2) {
+                                GEdit::Noise(format!("nobody{ver}"), "a".into())
+                            } else {
+                                GEdit::Noise(id, ext)
+                            }
+                        }
                         _ => GEdit::Put(id, ext, format!("v{ver}")),
                     }
                 })
